@@ -324,6 +324,32 @@ var specC09Scalars = Register(&Spec[ScalarsCase]{
 		if !sameUpToTrailingNewline(y.Multi, x.Multi) || !sameUpToTrailingNewline(y.Text, x.Text) {
 			return errf("round trip changed a multi-line string: wrote %q / %q as %q, read %q / %q", x.Multi, x.Text, text, y.Multi, y.Text)
 		}
+		// one Encoder, several calls (a value, then a list, then a list of pointers): the stream holds
+		// one paragraph per value written, in order
+		{
+			var eb bytes.Buffer
+			enc, err := control.NewEncoder(&eb)
+			if err != nil {
+				return errf("NewEncoder: %v", err)
+			}
+			x2, x3 := probeScalars{Str: "second", Req: "r2", Num: 2}, probeScalars{Str: "third", Req: "r3", Num: 3}
+			if err := enc.Encode(&x); err != nil {
+				return errf("Encoder.Encode(&T): %v", err)
+			}
+			if err := enc.Encode([]probeScalars{x2, x3}); err != nil {
+				return errf("Encoder.Encode([]T) after a value: %v", err)
+			}
+			if err := enc.Encode([]*probeScalars{&x3, &x2}); err != nil {
+				return errf("Encoder.Encode([]*T) after a list: %v", err)
+			}
+			var back []probeScalars
+			if err := control.Unmarshal(&back, bytes.NewReader(eb.Bytes())); err != nil {
+				return errf("a value, a list of two and a list of two pointers written through one Encoder as %q do not read back: %v", eb.String(), err)
+			}
+			if len(back) != 5 || back[0].Req != x.Req || back[0].Num != x.Num || back[1].Str != "second" || back[2].Num != 3 || back[3].Str != "third" || back[4].Req != "r2" {
+				return errf("a value, a list of two and a list of two pointers written through one Encoder as %q read back as %d values", eb.String(), len(back))
+			}
+		}
 		// the paragraph-level API is a second route for the same conversion
 		para2, err := control.ConvertToParagraph(&x)
 		if err != nil {
